@@ -14,6 +14,9 @@ codegen / import machinery:
       standard library decides decodable / undecodable; undecodable input must
       raise CompileException, decodable input must behave as its decoded text.
 
+  (D) "outenc": template shapes that write one / several pieces x a wide
+      alphabet of output encodings (stateful encoders included) x error
+      policies: render() == render_unicode().encode(enc, errors) on the whole.
   (C) "seq": every ordered pair of distinct output configurations (encoding x
       error policy) rendered first / second in a pristine process: state kept
       between renders must not leak from one configuration into the next.
@@ -69,7 +72,11 @@ LEVEL_TEXT = (
     "U+FFFB, U+F000 (UTF-8 lead byte EF like the BOM) or U+EFFF.  Declaration-style dimension 'long comment': the coding "
     "comment padded like an editor modeline, after or before the coding: token, to a first line of exactly 40, 99, 100, 101, "
     "128, 300 and 1100 bytes, as sole declaration, agreeing and conflicting with input_encoding, and contradicting a BOM "
-    "(quick: koi8-r, shift_jis, cp1252, utf-8+BOM; thorough: every codec).  Every ordered pair of distinct output configurations "
+    "(quick: koi8-r, shift_jis, cp1252, utf-8+BOM; thorough: every codec).  Coding comment lines that also carry "
+    "characters of the codec (behind / in front of the declaration) for every codec.  Output side: template shapes writing "
+    "one / several pieces (text+expression, loop, def call, buffered def, inheritance) x 11 (thorough 24) output encodings "
+    "including encoders that are stateful across the text (utf-16, utf-32, utf-8-sig, iso2022_jp, hz, utf-7) x 4 (7) error "
+    "policies x strings x memory / module file / lookup.  Every ordered pair of distinct output configurations "
     "(2 encodings x 4 error policies, thorough 4 x 7) is rendered first/second in a pristine process.  Complete within "
     "those bounds; no sampling."
 )
@@ -104,7 +111,9 @@ BOUNDS = {
         "paths": "bytes,file,mod,reopen,newproc for outputs (None),(same codec,strict); bytes,mod for the 3 error-handler outputs",
         "outputs": 5, "neg": "all single bytes >=0x80 x 3 frames (4 for utf-8 and utf-8+BOM: also first-in-template) x 2 paths x {comment,input_encoding[,none]}",
         "bom_lead": "carrier 'lead' x all 12 BOM declaration styles x 20 strings starting with U+FF21/U+FEFF/U+FFFB/U+F000/U+EFFF (+6 ordinary)",
-        "seq": "ordered pairs of distinct (encoding, policy) over {ascii, latin-1} x {strict, replace, xmlcharrefreplace, htmlentityreplace}: 56",
+        "seq": "ordered pairs of distinct (encoding, policy) over {ascii, latin-1, utf-16} x {strict, replace, xmlcharrefreplace, htmlentityreplace}: 132, several-write template",
+        "nonascii_comment": "coding comment line carrying characters of the codec behind / in front of the declaration x {sole, conflicting input_encoding} x 11 codecs x text carrier x 4 strings x 5 paths x 2 plain outputs",
+        "outenc": "5 template shapes (one write, text+expr, loop, def call, inheritance) x 11 output encodings (utf-16/32, utf-8-sig, utf-16-le/be, utf-8, ascii, latin-1, shift_jis, iso2022_jp, utf-7) x 4 policies x 4 strings x {memory, module file}: 1760",
         "long_comment": "first line of exactly {40,99,100,101,128,300,1100} bytes x padding after/before the coding: token x {comment, both agreeing, both conflicting, BOM contradicted} x codecs koi8-r, shift_jis, cp1252, utf-8+BOM x text carrier x 4 strings x 5 paths x 2 plain outputs",
     },
     "thorough": {
@@ -115,7 +124,9 @@ BOUNDS = {
         "neg": "single bytes as quick (4 frames for all codecs) + all two-byte sequences with lead >=0x80 (frame mid, comment) + UTF-8 3/4-byte boundary sequences, the 3-byte ones also directly behind the BOM",
         "bom_lead": "carrier 'lead' for every codec; for utf-8+BOM additionally all 27 declaration styles x 20 special-first-character strings",
         "long_comment": "as quick for all 11 codecs, a third padding with a non-ASCII character of the codec, BOM contradicted by 3 codecs, carriers text+defattr, 6 strings, 6 paths",
-        "seq": "ordered pairs over {ascii, latin-1, cp1252, shift_jis} x {strict, replace, xmlcharrefreplace, htmlentityreplace, ignore, backslashreplace, namereplace}: 756",
+        "seq": "ordered pairs over {ascii, latin-1, cp1252, shift_jis, utf-16, utf-8-sig} x {strict, replace, xmlcharrefreplace, htmlentityreplace, ignore, backslashreplace, namereplace}: 1722",
+        "nonascii_comment": "as quick + characters on both sides + agreeing input_encoding, carriers text+defattr, 6 strings, 6 paths",
+        "outenc": "6 shapes (+ buffered def) x 24 output encodings x 7 policies x 6 strings x {memory, module file, TemplateLookup}: 16128",
     },
 }
 READY = True
@@ -252,6 +263,29 @@ def long_decls(codec, tier, seed=0):
     return out
 
 
+def nonascii_comment_decls(codec, tier, seed=0):
+    """coding comment lines that also carry characters of the codec, behind ('tail') or in front of ('head') the
+    declaration, e.g. '## -*- coding: koi8-r -*- <title in Russian>'; name nonascii-<style>:<where>"""
+    x = true_codec(codec)
+    r = repertoire(codec, seed, 4)
+    words = {"tail": "## -*- coding: %s -*- " + r[1] + r[2] + " " + r[3] + "\n",
+             "head": "## " + r[2] + r[1] + " -*- coding: %s -*-\n",
+             "both": "## " + r[3] + " coding: %s " + r[1] + r[1] + r[2] + "\n"}
+    out = []
+    for where in (("tail", "head") if tier == "quick" else ("tail", "head", "both")):
+        h = words[where] % x
+        out.append(("nonascii-comment:" + where, h, x, None))
+        out.append(("nonascii-conflict:" + where, h, x, _total_other(x)))
+        if tier != "quick":
+            out.append(("nonascii-both:" + where, h, x, x))
+    return out
+
+
+def is_special(declname):
+    # declaration styles crossed with a reduced set of carriers / strings / output configurations
+    return declname.startswith(("long-", "nonascii-"))
+
+
 def decls(codec, tier, seed=0, with_long=True):
     """-> list of (name, header text, comment codec spelling or None, input_encoding or None)"""
     x = true_codec(codec)
@@ -283,6 +317,7 @@ def decls(codec, tier, seed=0, with_long=True):
             out.append(("bom+ie:" + c, "", None, c))
     if with_long:
         out += long_decls(codec, tier, seed)
+        out += nonascii_comment_decls(codec, tier, seed)
     return out
 
 
@@ -595,7 +630,7 @@ class Judge:
         self._failed = True
         self.any_failed = True
         d = self.declname
-        if d.startswith("long-"):
+        if is_special(d):
             dc = d.split(":")[0]  # the lengths / padding side are in the case, not in the footprint
         elif d.startswith("bom"):
             dc = d
@@ -782,7 +817,7 @@ def source_cases(tier, seed):
         if not quick:
             long_strings += [rep4[3], rep4[2] + rep4[2] + rep4[1]]
         for decl in ds:
-            if decl[0].startswith("long-"):
+            if is_special(decl[0]):
                 for carrier in (["text"] if quick else ["text", "defattr"]):
                     for L in long_strings:
                         yield codec, decl, carrier, L
@@ -811,8 +846,8 @@ def run_source_case(codec, decl, carrier, L, outs, paths, env, st, seen=None, li
     exp = reference(raw, cc, ie)
     kw_in = {"input_encoding": ie} if ie is not None else {}
     case_base = {"kind": "grid", "codec": codec, "decl": declname, "carrier": carrier, "L": L}
-    if declname.startswith("long-") and declname.endswith(":c"):
-        case_base["header"] = header  # its padding carries a seed-chosen character
+    if (declname.startswith("long-") and declname.endswith(":c")) or declname.startswith("nonascii-"):
+        case_base["header"] = header  # the comment line carries seed-chosen characters
     nontriv = bom or any(b >= 0x80 for b in raw) or (cc is not None and ie is not None and codecs.lookup(cc).name != codecs.lookup(ie).name)
 
     closed = closed_def = ref_u = ref_code = None
@@ -961,7 +996,7 @@ def run_grid(job, st):
             continue
         nsrc += 1
         # the long-comment styles concern decoding only: crossed with the two plain output configurations
-        run_source_case(codec, decl, carrier, L, outs[:2] if decl[0].startswith("long-") else outs, paths, env, st, seen=seen,
+        run_source_case(codec, decl, carrier, L, outs[:2] if is_special(decl[0]) else outs, paths, env, st, seen=seen,
                         lite_paths=PATHS_QUICK_LITE if quick else None)
         if env.count >= FLUSH_EVERY:
             flush_newproc(env, st)
@@ -1126,7 +1161,7 @@ def run_neg(job, st):
 # (encoding, error policy) is rendered first / second in a pristine process (forked from a child interpreter that
 # has imported mako and rendered nothing); both results are compared with str.encode of the standard library.
 
-SEQ_ENCODINGS = {"quick": ["ascii", "latin-1"], "thorough": ["ascii", "latin-1", "cp1252", "shift_jis"]}
+SEQ_ENCODINGS = {"quick": ["ascii", "latin-1", "utf-16"], "thorough": ["ascii", "latin-1", "cp1252", "shift_jis", "utf-16", "utf-8-sig"]}
 SEQ_POLICIES = {
     "quick": ["strict", "replace", "xmlcharrefreplace", "htmlentityreplace"],
     "thorough": ["strict", "replace", "xmlcharrefreplace", "htmlentityreplace", "ignore", "backslashreplace", "namereplace"],
@@ -1194,7 +1229,8 @@ for i, sq in enumerate(seqs):
 
 
 def _seq_text(L):
-    return "[x" + L + "y]<%def name=\"f()\">(" + L + ")</%def>\n"
+    # several writes to the top-level buffer and to the def's
+    return "[x" + L + "y]${'" + L + "'}<%def name=\"f()\">(" + L + ")${'" + L + "'}</%def>\n"
 
 
 def _unj(d):
@@ -1229,7 +1265,7 @@ def run_seq_batch(cases, st, env=None):
         return
     for i, c in enumerate(cases):
         L = c["L"]
-        closed, closed_def = "[x" + L + "y]\n", "(" + L + ")"
+        closed, closed_def = "[x" + L + "y]" + L + "\n", "(" + L + ")" + L
         rel = _relation(c["first"], c["second"])
         st.states += 1
         st.nontrivial += 1
@@ -1271,6 +1307,159 @@ def run_seq_batch(cases, st, env=None):
 
 
 # --------------------------------------------------------------------------
+# (D) output encodings: template shapes that write to the output buffer in one / several pieces x a wide alphabet of
+# output encodings (incl. encoders that are stateful across the text: BOM-writing utf-16 / utf-32 / utf-8-sig,
+# escape-sequence iso2022_jp / hz, utf-7) x error policies x strings x ways to render.
+# Oracle: render() == render_unicode().encode(enc, errors) of the standard library, on the WHOLE text.
+
+OUTENC_ENCODINGS = {
+    "quick": ["utf-16", "utf-32", "utf-8-sig", "utf-16-le", "utf-16-be", "utf-8", "ascii", "latin-1", "shift_jis",
+              "iso2022_jp", "utf-7"],
+    "thorough": ["utf-16", "utf-32", "utf-8-sig", "utf-16-le", "utf-16-be", "utf-32-le", "utf-32-be", "utf-8", "ascii",
+                 "latin-1", "cp1251", "cp1252", "koi8-r", "shift_jis", "euc-jp", "gb2312", "iso-8859-15", "iso2022_jp",
+                 "iso2022_kr", "hz", "utf-7", "big5", "cp932", "gb18030"],
+}
+OUTENC_POLICIES = SEQ_POLICIES
+
+# name -> (template source(L), closed-form output(L), {other templates of the lookup}, closed form of get_def('f') or None)
+OUTENC_SHAPES = {
+    "one-write": (lambda L: "[" + L + "]", lambda L: "[" + L + "]", None, None),
+    "text+expr": (lambda L: "[" + L + "]${'" + L + "'}<" + L + ">${'!'}\n", lambda L: "[" + L + "]" + L + "<" + L + ">!\n", None, None),
+    "loop": (lambda L: "% for i in range(3):\n${i}" + L + "\n% endfor\n", lambda L: "".join("%d%s\n" % (i, L) for i in range(3)), None, None),
+    "def-call": (lambda L: "<%def name=\"f()\">(" + L + "${'" + L + "'})</%def>[${f()}]" + L + "${f()}\n",
+                 lambda L: "[(" + L + L + ")]" + L + "(" + L + L + ")\n", None, lambda L: "(" + L + L + ")"),
+    "buffered-def": (lambda L: "<%def name=\"f()\" buffered=\"True\">(" + L + "${'" + L + "'})</%def>" + L + "${f()}${f()}\n",
+                     lambda L: L + "(" + L + L + ")(" + L + L + ")\n", None, lambda L: "(" + L + L + ")"),
+    "inherit": (lambda L: "<%inherit file=\"base.html\"/>" + L + "${'" + L + "'}",
+                lambda L: "<" + L + ">" + L + L + "</" + L + ">\n",
+                lambda L: {"base.html": "<" + L + ">${self.body()}</" + L + ">\n"}, None),
+}
+OUTENC_SHAPES_QUICK = ["one-write", "text+expr", "loop", "def-call", "inherit"]
+OUTENC_POOLS = [["é", "ß", "ñ", "ü"], ["€", "™", "…", "—"], ["中", "あ", "ソ", "日"], ["\U0001d11e", "\U0001f600", "\U00010348", "\U00020000"]]
+
+
+def outenc_strings(tier, seed):
+    c = [p[(seed + i) % 4] for i, p in enumerate(OUTENC_POOLS)]
+    a = _ASCII_L[seed % 4]
+    out = [a, c[0], c[2] + c[2], c[0] + c[1] + c[2] + c[3]]
+    if tier != "quick":
+        out += [c[3], a + c[2] + a + c[2]]
+    return out
+
+
+def outenc_cases(tier, seed):
+    shapes = OUTENC_SHAPES_QUICK if tier == "quick" else list(OUTENC_SHAPES)
+    for shape in shapes:
+        for enc in OUTENC_ENCODINGS[tier]:
+            for err in OUTENC_POLICIES[tier]:
+                for L in outenc_strings(tier, seed):
+                    for how in (("memory", "modfile") if tier == "quick" else ("memory", "modfile", "lookup")):
+                        if OUTENC_SHAPES[shape][2] is not None and how != "lookup" and tier != "quick":
+                            continue
+                        yield {"kind": "outenc", "shape": shape, "enc": enc, "err": err, "L": L, "how": how}
+
+
+def run_outenc_case(c, env, st):
+    from mako.lookup import TemplateLookup
+    from mako.template import Template
+
+    src_f, closed_f, others_f, def_f = OUTENC_SHAPES[c["shape"]]
+    L, enc, err, how = c["L"], c["enc"], c["err"], c["how"]
+    src, closed = src_f(L), closed_f(L)
+    kw = {"output_encoding": enc, "encoding_errors": err}
+    st.states += 1
+    st.nontrivial += 1
+    st.traces += 1
+    st.evaluations += 1
+    st.transitions += 3
+    obs = {}
+    try:
+        env.count += 1
+        if others_f is not None or how == "lookup":
+            d = os.path.join(env.tdir, "o%d" % env.count)
+            os.makedirs(d)
+            files = dict(others_f(L)) if others_f is not None else {}
+            files["t.html"] = src
+            for name, text in files.items():
+                with open(os.path.join(d, name), "wb") as f:
+                    f.write(text.encode("utf-8"))
+            lkw = dict(kw)
+            if how != "memory":
+                lkw["module_directory"] = os.path.join(d, "m")
+            t = TemplateLookup(directories=[d], **lkw).get_template("t.html")
+        elif how == "memory":
+            t = Template(src, uri="oe%d" % env.count, **kw)
+        else:
+            fn = os.path.join(env.tdir, "o%d.html" % env.count)
+            with open(fn, "wb") as f:
+                f.write(src.encode("utf-8"))
+            t = Template(filename=fn, uri="o%d.html" % env.count, module_directory=env.mdir, **kw)
+        obs["u"] = t.render_unicode()
+        try:
+            obs["r"] = t.render()
+        except UnicodeError as e:
+            obs["r_exc"] = type(e).__name__
+        if def_f is not None:
+            st.transitions += 2
+            dt = t.get_def("f")
+            obs["def_u"] = dt.render_unicode()
+            try:
+                obs["def_r"] = dt.render()
+            except UnicodeError as e:
+                obs["def_r_exc"] = type(e).__name__
+    except Exception as e:  # noqa
+        obs["exc"] = [type(e).__name__, str(e)[:200]]
+    bad = None
+    oc = []
+    st.oracles["outenc_render"] += 1
+    if "exc" in obs:
+        bad = ("outcome", "raised " + obs["exc"][0], "renders", obs["exc"])
+        oc.append("exc!")
+    elif obs["u"] != closed or (def_f is not None and obs.get("def_u") != def_f(L)):
+        bad = ("render_unicode", "render_unicode differs", closed, [obs["u"], obs.get("def_u")])
+    else:
+        for pre, u in (("", closed),) + ((("def_", def_f(L)),) if def_f is not None else ()):
+            er = expected_render(u, enc, err)
+            if pre + "r_exc" in obs:
+                g = ("raise", obs[pre + "r_exc"])
+            else:
+                r = obs.get(pre + "r")
+                g = ("bytes" if isinstance(r, bytes) else type(r).__name__, r)
+            oc.append(g[0] if g[0] != "raise" else "raise:" + g[1])
+            if g != er and bad is None:
+                what = "render()" if not pre else "get_def render()"
+                pieces = "several-piece output" if c["shape"] != "one-write" else "one-piece output"
+                bad = ("render_encode", "%s != render_unicode().encode(enc, errors), %s" % (what, pieces), repr(er), repr(g))
+    st.outcomes[("outenc", c["shape"], how, tuple(oc))] += 1
+    if bad:
+        oracle, detail, expd, obsd = bad
+        sig = "outenc-%s|%s" % (oracle, detail)
+        case = dict(c, sig=sig, out=[enc, err])
+        report(st, env, sig, case, "outenc-" + oracle, expd, obsd)
+    if env.search:
+        cell = dict(c, out=[enc, err])
+        env.recent.append(cell)
+        if (enc, err) not in env.firstuse:
+            env.firstuse[(enc, err)] = cell
+    env.total += 1
+    if env.total % 211 == 1:
+        st.sample(dict(c, closed_form=closed))
+
+
+def run_outenc(job, st):
+    env = Env()
+    env.search = True
+    n = 0
+    for c in job["cases"]:
+        run_outenc_case(c, env, st)
+        n += 1
+        if env.count >= 600:
+            env.drop()
+    env.drop()
+    st.extra["outenc_cases"] = n
+
+
+# --------------------------------------------------------------------------
 # jobs
 
 
@@ -1303,6 +1492,10 @@ def plan(tier, seed):
     nsq = 4 if tier == "quick" else 16
     for i in range(nsq):
         jobs.append({"kind": "seq", "tier": tier, "seed": seed, "cases": sq[i::nsq]})
+    oc = list(outenc_cases(tier, seed))
+    noc = 4 if tier == "quick" else 16
+    for i in range(noc):
+        jobs.append({"kind": "outenc", "tier": tier, "seed": seed, "cases": oc[i::noc]})
     # long jobs first
     jobs.sort(key=lambda j: 0 if j["kind"] == "grid" else 1)
     return jobs
@@ -1316,6 +1509,8 @@ def run_job(job):
             run_grid(job, st)
         elif job["kind"] == "seq":
             run_seq_batch(job["cases"], st)
+        elif job["kind"] == "outenc":
+            run_outenc(job, st)
         else:
             run_neg(job, st)
     finally:
@@ -1337,13 +1532,15 @@ def replay(case):
     try:
         if case["kind"] == "seq":
             run_seq_batch([{k: case[k] for k in ("kind", "first", "second", "L")}], st)
+        elif case["kind"] == "outenc":
+            run_outenc_case({k: case[k] for k in ("kind", "shape", "enc", "err", "L", "how")}, env, st)
         elif case["kind"] == "grid":
             codec = case["codec"]
             decl = None
             for tier in ("quick", "thorough"):
                 for sd in range(4):
                     for d in decls(codec, tier, sd):
-                        if d[0] == case["decl"] and (not d[0].startswith("long-") or case.get("header") in (None, d[1])):
+                        if d[0] == case["decl"] and case.get("header") in (None, d[1]):
                             decl = d
                             break
                     if decl:
